@@ -7,7 +7,8 @@
 (*   run      one nnvg invocation: options o, status st, snapshot post of every file (interned digest c,     *)
 (*            permission bits m), fresh = digests of the same invocation into an empty directory (fok: it     *)
 (*            succeeded), and for the I-layer: ord = order in which that run generates, ev = audit events    *)
-(*            (chmod/open on files of the directory), lpp = a line post-processor is in force, priv = root.  *)
+(*            (chmod/open on files of the directory, exec of the --pp-run-program on one), lpp = a line        *)
+(*            post-processor is in force, rp = --pp-run-program is given, priv = root.                        *)
 (* P decides: REJECT with the first failing clause of GenHistory!FailedClauses (4th field: how many failed).  *)
 (* The I-layer only annotates: clause names starting with "drift." (end state or event sequence differ from  *)
 (* what the implementation-shaped model predicts, or from the expected state a model behaviour carried).    *)
@@ -29,19 +30,23 @@ FreshOf(seq, post) == [p \in {seq[i].p : i \in DOMAIN seq} |->
 (* "the file now holds fresh[f]", i.e. the truncating open of the code)                                        *)
 TDenied(d, f, priv) == f \in DOMAIN d /\ ~priv /\ ~OwnerWritable(d[f].m)
 EvOvw(d, f, o) == IF f \in DOMAIN d /\ Gated(f) /\ ChmodGate THEN <<[e |-> "chmod", p |-> f, a |-> Or(d[f].m, UGW)]>> ELSE <<>>
-EvRest(f, o, lpp) == <<[e |-> "open", p |-> f, a |-> 1]>>
+(* rp: --pp-run-program is given; the chain is the model's: program ("exec" on the file) before SetFileMode    *)
+EvChain(f, o, rp) == LET prog == IF rp THEN <<[e |-> "exec", p |-> f, a |-> 0]>> ELSE <<>>
+                         mode == <<[e |-> "chmod", p |-> f, a |-> o.fm]>>
+                     IN IF PPOrder = "program_first" THEN prog \o mode ELSE mode \o prog
+EvRest(f, o, lpp, rp) == <<[e |-> "open", p |-> f, a |-> 1]>>
                      \o (IF Kind(f) = "copy" /\ ~lpp THEN <<[e |-> "chmod", p |-> f, a |-> ResourceMode]>> ELSE <<>>)
-                     \o <<[e |-> "chmod", p |-> f, a |-> o.fm]>>
+                     \o EvChain(f, o, rp)
 
-RECURSIVE IRun(_, _, _, _, _, _, _)
-IRun(d, o, fresh, q, lpp, priv, ev) ==
+RECURSIVE IRun(_, _, _, _, _, _, _, _)
+IRun(d, o, fresh, q, lpp, rp, priv, ev) ==
     IF q = <<>> THEN [fs |-> d, st |-> "ok", ev |-> ev]
     ELSE LET f == Head(q) IN
          IF OvwRefuses(d, f, o) THEN [fs |-> d, st |-> "error", ev |-> ev]
          ELSE LET d1 == StepOvw(d, f, o) IN
               IF TDenied(d1, f, priv) THEN [fs |-> d1, st |-> "error", ev |-> ev \o EvOvw(d, f, o) \o <<[e |-> "open", p |-> f, a |-> 1]>>]
-              ELSE IRun(Put(d1, f, [c |-> fresh[f], m |-> o.fm]), o, fresh, Tail(q), lpp, priv,
-                        ev \o EvOvw(d, f, o) \o EvRest(f, o, lpp))
+              ELSE IRun(Put(d1, f, [c |-> fresh[f], m |-> o.fm]), o, fresh, Tail(q), lpp, rp, priv,
+                        ev \o EvOvw(d, f, o) \o EvRest(f, o, lpp, rp))
 
 EvJ(seq) == [i \in DOMAIN seq |-> [e |-> seq[i].e, p |-> seq[i].p, a |-> seq[i].a]]
 
@@ -57,7 +62,7 @@ TRun(r) ==
     LET post  == FsOf(r.post)
         fresh == FreshOf(r.fresh, post)
         bad   == FailedClauses(fs, r.o, fresh, r.fok, r.st, post)
-        pred  == IRun(fs, r.o, fresh, r.ord, r.lpp, r.priv, <<>>)
+        pred  == IRun(fs, r.o, fresh, r.ord, r.lpp, r.rp, r.priv, <<>>)
     IN  /\ IF bad # {} THEN Say(r.id, FirstClause(bad), bad)
            ELSE IF r.hasexp /\ FsOf(r.exp) # post THEN Say(r.id, "drift.model_expected", {})
            ELSE IF r.hasexp /\ r.expst # r.st THEN Say(r.id, "drift.model_status", {})
@@ -71,12 +76,12 @@ TEnv(r) ==
     /\ IF FsOf(r.post) # d THEN Say(r.id, "harness.env", {}) ELSE TRUE
     /\ fs' = FsOf(r.post)
 
-TInit == /\ l = 1 /\ fs = Empty /\ pc = "idle" /\ queue = <<>> /\ opts = NoOpts /\ pre = Empty
+TInit == /\ l = 1 /\ fs = Empty /\ pc = "idle" /\ queue = <<>> /\ chain = <<>> /\ opts = NoOpts /\ pre = Empty
          /\ status = "none" /\ hist = <<>> /\ nsteps = 0
 TNext == /\ l <= Len(Trace)
          /\ IF Trace[l].k = "run" THEN TRun(Trace[l]) ELSE TEnv(Trace[l])
          /\ l' = l + 1
-         /\ UNCHANGED <<pc, queue, opts, pre, status, hist, nsteps>>
+         /\ UNCHANGED <<pc, queue, chain, opts, pre, status, hist, nsteps>>
 TSpec == TInit /\ [][TNext]_<<vars, l>>
 Accepted == TLCGet("stats").diameter - 1 = Len(Trace)
 =============================================================================
